@@ -69,6 +69,7 @@ class Harness:
         self.timeout = 600
         self.expect = "pass"     # pass | fail (vacuity twin: must be violated)
         self.finding = None      # id in known_findings.json this harness isolates
+        self.also = []           # properties this harness additionally serves in the thorough tier only
         self.bounds = []
         self.unwind = None
         self.stubs = []
@@ -98,6 +99,8 @@ def discover():
                     k, _, v = kv.partition("=")
                     if k == "props":
                         cur.props = v.split(",")
+                    elif k == "also":
+                        cur.also = v.split(",")
                     elif k == "tier":
                         cur.tier = v
                     elif k == "timeout":
@@ -495,11 +498,12 @@ def main():
     allh = discover()
     if a.list:
         for h in allh:
-            print("%-10s %-8s %-40s %s" % (",".join(h.props), h.tier, h.name, h.file))
+            print("%-14s %-8s %-44s %s" % (",".join(h.props) + ("+" + ",".join(h.also) if h.also else ""), h.tier, h.name, h.file))
         return
     prop = a.prop
     tier = a.tier if a.tier in ("quick", "thorough") else "quick"
-    hs = [h for h in allh if prop in h.props and (tier == "thorough" or h.tier == "quick")]
+    hs = [h for h in allh if (prop in h.props and (tier == "thorough" or h.tier == "quick"))
+          or (prop in h.also and tier == "thorough")]
     if a.only:
         hs = [h for h in hs if a.only in h.name]
     if a.cap:
